@@ -162,7 +162,7 @@ class H(object):
             cls.stats['marks'][key] = cls.stats['marks'].get(key, 0) + 1
             if len(cls.stats['samples']) < 3:
                 try:
-                    cls.stats['samples'].append({'inputs': _jsonable(ch.deep_realize(inputs)),
+                    cls.stats['samples'].append({'inputs': _jsonable(ch.peek(inputs)),
                                                  'marks': key})
                 except Exception:
                     pass
@@ -237,6 +237,9 @@ def cond_fn(name, params, body, pre=(), consts=None):
         flat.extend(zip(names_, elts))
         tup = '(' + ', '.join(names_) + ',)'
         pre = [re.sub(r'\b%s\b' % re.escape(n), tup, pc) for pc in pre]
+    if len(set(n for n, _ in flat)) != len(flat):
+        raise AssertionError('cond_fn: parameter names collide after Tuple expansion: %r'
+                             % ([n for n, _ in flat],))
     _GEN_COUNT[0] += 1
     fname = '<vf-cond-%s-%d>' % (name, _GEN_COUNT[0])
     sig = ', '.join('%s: %s' % (n, t) for n, t in flat)
